@@ -13,6 +13,9 @@ BoolV(b) == [k |-> "bool", v |-> b]
 StrV(s) == [k |-> "str", v |-> s]
 ArrV(s) == [k |-> "arr", v |-> s]
 Fl(c, neg, n, e) == [k |-> "float", c |-> c, neg |-> neg, n |-> n, e |-> e]
+\* integers beyond the model's arithmetic range (|v| > 2^30) are carried as their decimal text: they can be written,
+\* rendered, parsed back and compared with each other; arithmetic on them is Unspecified
+BigV(txt) == [k |-> "bigint", txt |-> txt]
 NaN == Fl("nan", FALSE, 0, 0)
 Inf(neg) == Fl("inf", neg, 0, 0)
 
@@ -164,11 +167,13 @@ LenOf(a) == IF a.k \in {"str", "arr"} THEN Ok(IntV(Len(a.v))) ELSE NilOrType1(a)
 Neg(a) == Arith("*", IntV(-1), a)        \* unary minus is -1 * x
 
 Index1(a, i) ==
+  IF i.k = "bigint" \/ a.k = "bigint" THEN Unspec ELSE
   IF i.k = "nil" THEN NilErr ELSE IF i.k # "int" THEN Err("type")
   ELSE IF a.k \notin {"str", "arr"} THEN (IF a.k = "nil" THEN [err |-> "type", alt |-> "nil"] ELSE Err("type"))
   ELSE IF i.v < 0 \/ i.v >= Len(a.v) THEN Err("index")
   ELSE IF a.k = "str" THEN Ok(StrV(<<a.v[i.v + 1]>>)) ELSE Ok(a.v[i.v + 1])
 Index2(a, i, j) ==
+  IF i.k = "bigint" \/ j.k = "bigint" \/ a.k = "bigint" THEN Unspec ELSE
   IF i.k = "nil" THEN NilErr ELSE IF i.k # "int" THEN Err("type")
   ELSE IF j.k = "nil" THEN NilErr ELSE IF j.k # "int" THEN Err("type")
   ELSE IF a.k \notin {"str", "arr"} THEN (IF a.k = "nil" THEN [err |-> "type", alt |-> "nil"] ELSE Err("type"))
@@ -176,6 +181,9 @@ Index2(a, i, j) ==
   ELSE Ok([a EXCEPT !.v = SubSeq(a.v, i.v + 1, j.v)])
 
 BinApply(op, a, b) ==
+  IF a.k = "bigint" \/ b.k = "bigint" THEN
+     (IF op \in {"==", "!="} /\ a.k = "bigint" /\ b.k = "bigint" THEN Ok(BoolV((a.txt = b.txt) = (op = "=="))) ELSE Unspec)
+  ELSE
   CASE op \in {"+", "-", "*", "/"} -> Arith(op, a, b)
     [] op = "%" -> Mod(a, b)
     [] op \in {"<", ">", "<=", ">="} -> Rel(op, a, b)
@@ -184,6 +192,7 @@ BinApply(op, a, b) ==
     [] op \in {"|", "||"} -> Logic("|", a, b)
     [] op \in {"<<", ">>"} -> Shift(op, a, b)
 UnApply(op, a) ==
+  IF a.k = "bigint" THEN (IF op = "-" /\ a.txt[1] # "-" THEN Ok(BigV(<<"-">> \o a.txt)) ELSE Unspec) ELSE
   CASE op = "-" -> Neg(a) [] op = "#" -> LenOf(a) [] op = "!" -> Not(a) [] op = "~" -> Flip(a)
 
 -----------------------------------------------------------------------------
@@ -214,6 +223,7 @@ RECURSIVE Render(_)
 Render(v) ==     \* [val |-> chars] or Unspec
   CASE v.k = "nil" -> Ok(<<"n", "i", "l">>)
     [] v.k = "int" -> Ok(IntStr(v.v))
+    [] v.k = "bigint" -> Ok(v.txt)
     [] v.k = "bool" -> Ok(IF v.v THEN <<"t", "r", "u", "e">> ELSE <<"f", "a", "l", "s", "e">>)
     [] v.k = "str" -> Ok(v.v)
     [] v.k = "fn" -> Ok(<<"f", "u", "n", "c", "t", "i", "o", "n">>)
@@ -233,6 +243,13 @@ DigitVal(c) == (CHOOSE i \in 1..10 : Digits[i] = c) - 1
 RECURSIVE NatVal(_)
 NatVal(s) == IF Len(s) = 0 THEN 0 ELSE NatVal(SubSeq(s, 1, Len(s) - 1)) * 10 + DigitVal(s[Len(s)])
 AllDigits(s) == Len(s) > 0 /\ \A i \in 1..Len(s) : IsDigit(s[i])
+\* does the digit string denote a number above 2^30 = 1073741824 (compared as text)?
+RECURSIVE LexGreater(_, _, _)
+LexGreater(a, b, i) == IF i > Len(a) THEN FALSE ELSE IF DigitVal(a[i]) # DigitVal(b[i]) THEN DigitVal(a[i]) > DigitVal(b[i]) ELSE LexGreater(a, b, i + 1)
+TwoPow30 == <<"1", "0", "7", "3", "7", "4", "1", "8", "2", "4">>
+RECURSIVE StripLead(_)
+StripLead(s) == IF Len(s) > 1 /\ s[1] = "0" THEN StripLead(Tail(s)) ELSE s
+IsBigText(body) == LET t == StripLead(body) IN Len(t) > 10 \/ (Len(t) = 10 /\ LexGreater(t, TwoPow30, 1))
 NumericLooking(s) == \A i \in 1..Len(s) : IsDigit(s[i]) \/ s[i] \in {".", "+", "-", "e", "E", "x", "X", "p", "P", "_", "i", "n", "f", "I", "N", "a", "A", "F"}
 Aton(v) ==
   IF v.k # "str" THEN NilOrType1(v)
@@ -241,7 +258,9 @@ Aton(v) ==
            body == IF neg THEN SubSeq(s, 2, Len(s)) ELSE s
            dot == {i \in 1..Len(body) : body[i] = "."}
        IN IF AllDigits(body) THEN
-             (IF Len(body) > 9 THEN Unspec ELSE Ok(IntV(IF neg THEN -NatVal(body) ELSE NatVal(body))))
+             (IF ~IsBigText(body) THEN Ok(IntV(IF neg THEN -NatVal(body) ELSE NatVal(body)))
+              ELSE IF Len(body) <= 18 /\ body[1] # "0" THEN Ok(BigV(s))       \* below 10^18 < 2^63: an int, carried as text
+              ELSE Unspec)
           ELSE IF Cardinality(dot) = 1 THEN
              LET d == CHOOSE i \in dot : TRUE
                  ip == SubSeq(body, 1, d - 1)  fp == SubSeq(body, d + 1, Len(body)) IN
